@@ -48,13 +48,38 @@ harness("trg_complete_80", "TrgV3Packet::try_from / TrgPacket::try_from on [u8;8
 harness("trg_other_lengths", "TrgV3Packet::try_from on lengths 0..=96 except 80", True,
         bound="all lengths 0..=96 other than 80 (longer lengths: Verus, unbounded)", decode=bytes_len_op("trg", 96))
 
+harness("alpha16_mac_complete", "alpha16::BoardId::try_from([u8;6])", True, bound="all 2^48 MAC addresses", decode=None)
+harness("pwb_mac_complete", "padwing::BoardId::try_from([u8;6])", True, bound="all 2^48 MAC addresses")
+harness("pwb_device_complete", "padwing::BoardId::try_from(u32)", True, bound="all u32 device ids")
+harness("small_ids_complete", "Adc16/Adc32ChannelId, ModuleId, AfterId(u8,char), Compression, Trigger, EventId, chronobox::ChannelId", True, bound="all u8 / u16 / char")
+harness("pwb_readout_complete", "padwing::ChannelId::try_from(u16)", True, bound="all u16 readout indices, all pairs for injectivity")
+harness("name_adc16_4", "midas::Adc16BankName::try_from(&str)", True, bound="all 4-byte strings (the only length accepted)", timeout=1500)
+harness("name_adc32_4", "midas::Adc32BankName::try_from(&str)", True, bound="all 4-byte strings", timeout=1500)
+harness("name_padwing_4", "midas::PadwingBankName::try_from(&str)", True, bound="all 4-byte strings", timeout=1500)
+harness("name_fixed_4", "Trigger/Trb3/Seq2/McVertex/ChronoboxBankName::try_from(&str)", True, bound="all 4-byte strings", timeout=1500)
+harness("name_main_event_4", "MainEventBankName / Alpha16BankName dispatch", True, bound="all 4-byte strings", timeout=3000)
+harness("name_other_lengths", "bank-name parsers on strings of 0..=8 bytes except 4", False, bound="string length <= 8 bytes", timeout=3000)
+harness("adc_len16", "AdcV3Packet::try_from on [u8;16]", False, bound="length 16 (suppressed form), all bytes", decode=bytes_op("adc", 16))
+harness("adc_short_lengths", "AdcV3Packet::try_from on lengths 0..=35 except 16", False, bound="lengths <= 35", decode=bytes_len_op("adc", 35))
+harness("adc_len164", "AdcV3Packet::try_from on [u8;164] (64 samples)", False, bound="length 164, all bytes", timeout=3000, decode=bytes_op("adc", 164))
+harness("adc_len166", "AdcV3Packet::try_from on [u8;166] (65 samples)", False, bound="length 166, all bytes", timeout=3000, decode=bytes_op("adc", 166))
+harness("adc_len165_162", "AdcV3Packet::try_from on 165 and 162 bytes", False, bound="lengths 165, 162, all bytes", timeout=3000, decode=bytes_op("adc", 165))
+harness("chunk_len28", "Chunk::try_from on [u8;28] (CRC stub)", False, bound="length 28, all bytes, crc32c replaced by a stub", timeout=1500, decode=bytes_op("chunk", 28))
+harness("chunk_len32", "Chunk::try_from on [u8;32] (CRC stub)", False, bound="length 32, all bytes, crc32c replaced by a stub", timeout=1500, decode=bytes_op("chunk", 32))
+harness("chunk_other_lengths", "Chunk::try_from on lengths 0..=31 except 28", False, bound="lengths <= 31", timeout=1500, decode=bytes_len_op("chunk", 31))
+harness("pwb_0ch", "PwbV2Packet::try_from on 56 bytes, no channel sent, <=2 threshold bits", False, bound="56 bytes, 0 sent channels, <=2 threshold bits", timeout=3000)
+harness("fifo_word_complete", "chronobox::fifo_entry on every 4-byte word", True, bound="all 2^32 words")
+harness("fifo_word_short", "chronobox::fifo_entry on 0..=3 bytes", True, bound="all inputs shorter than a word")
+harness("fifo_word_then_rest", "chronobox::fifo_entry leaves the following 4 bytes untouched", True, bound="all 8-byte inputs")
+harness("scalers_block_lengths", "chronobox::scalers_block at 0,3,4,243,244,245,248 bytes", True, bound="all bytes at the lengths where the verdict can change (take(240) is length-uniform)")
+
 
 def make_scratch(repo: str, verif: str) -> str:
     scratch = tempfile.mkdtemp(prefix="verif-kani-", dir=os.environ.get("VERIF_SCRATCH", "/tmp"))
     subprocess.run(["rsync", "-a", "--exclude", "target", "--exclude", ".git", repo.rstrip("/") + "/", scratch + "/"], check=True)
-    lib = os.path.join(scratch, "detector", "src", "lib.rs")
-    with open(lib, "a") as f:
-        f.write(f'\n#[cfg(kani)]\n#[path = "{verif}/kani/detector.rs"]\nmod verif_kani;\n')
+    for rel, harness_file in (("detector/src/lib.rs", "detector.rs"), ("detector/src/chronobox.rs", "chronobox.rs")):
+        with open(os.path.join(scratch, rel), "a") as f:
+            f.write(f'\n#[cfg(kani)]\n#[path = "{verif}/kani/{harness_file}"]\nmod verif_kani;\n')
     os.makedirs(os.path.join(scratch, ".cargo"), exist_ok=True)
     with open(os.path.join(scratch, ".cargo", "config.toml"), "w") as f:
         f.write(f'[net]\noffline = true\n[patch.crates-io]\ncrc32c = {{ path = "{verif}/kani/crc32c-stub" }}\n')
